@@ -35,8 +35,37 @@ def fresh_sources(scratch_repo):
 
 
 def main():
-    names = sys.argv[1:] or sorted(d for d in os.listdir(os.path.join(ROOT, "seeded"))
-                                   if os.path.isdir(os.path.join(ROOT, "seeded", d)))
+    argv = sys.argv[1:]
+    jobs, part_out = 1, None
+    if "--jobs" in argv:
+        i = argv.index("--jobs")
+        jobs = int(argv[i + 1])
+        del argv[i:i + 2]
+    if "--part-out" in argv:
+        i = argv.index("--part-out")
+        part_out = argv[i + 1]
+        del argv[i:i + 2]
+    explicit = bool(argv)
+    names = argv or sorted(d for d in os.listdir(os.path.join(ROOT, "seeded"))
+                           if os.path.isdir(os.path.join(ROOT, "seeded", d)))
+    if jobs > 1:
+        # several seeds at a time: each child has its own scratch copy and cache directory and writes a part file
+        parts = [names[i::jobs] for i in range(jobs)]
+        procs = []
+        for i, part in enumerate(parts):
+            if not part:
+                continue
+            po = "/var/tmp/verif_seeds_part_%d_%d.json" % (os.getpid(), i)
+            procs.append((po, subprocess.Popen([sys.executable, os.path.abspath(__file__), "--part-out", po] + part)))
+        results = {}
+        for po, pr in procs:
+            pr.wait()
+            try:
+                results.update(json.load(open(po)))
+                os.remove(po)
+            except Exception as e:  # noqa: BLE001
+                print("part %s lost: %s" % (po, e))
+        return write_results(results, explicit)
     scratch = "/var/tmp/verif_seeds_%d" % os.getpid()
     srepo, starget, sout = (os.path.join(scratch, x) for x in ("repo", "target", "out"))
     results = {}
@@ -48,7 +77,7 @@ def main():
             sh("cp -a --reflink=auto %s/target/debug %s/debug" % (REPO, starget))
         env = dict(os.environ)
         env.update({"VERIF_REPO": srepo, "VERIF_TARGET_DIR": starget, "VERIF_OUT_DIR": sout,
-                    "VERIF_CACHE_SUFFIX": "_seeds", "CARGO_NET_OFFLINE": "true"})
+                    "VERIF_CACHE_SUFFIX": "_seeds%d" % os.getpid(), "CARGO_NET_OFFLINE": "true"})
         for name in names:
             d = os.path.join(ROOT, "seeded", name)
             patch = os.path.join(d, "patch.diff")
@@ -77,10 +106,17 @@ def main():
                                                   "; ".join(v.split("replay=")[-1].split("/")[-1] for v in viol)[:160]))
     finally:
         shutil.rmtree(scratch, ignore_errors=True)
-        shutil.rmtree(os.path.join(ROOT, ".cache", "gen_seeds"), ignore_errors=True)
+        shutil.rmtree(os.path.join(ROOT, ".cache", "gen_seeds%d" % os.getpid()), ignore_errors=True)
+    if part_out:
+        json.dump(results, open(part_out, "w"))
+        return 0
+    return write_results(results, explicit)
+
+
+def write_results(results, explicit):
     rp = os.path.join(ROOT, "seeded", "RESULTS.json")
     merged = {}
-    if sys.argv[1:] and os.path.exists(rp):      # a partial run updates only the seeds it ran
+    if explicit and os.path.exists(rp):      # a partial run updates only the seeds it ran
         try:
             merged = json.load(open(rp))
         except Exception:
